@@ -688,9 +688,23 @@ def privatize(spec):
         if old[i][0] == 'snapshot':
             return True
         return any(old[a][0] in DEEP_KINDS for a in reach_set(rev, i) - {i})
+    # document order (first visit in a depth-first walk from the root, children in written order)
+    first, stack = {}, [spec['root']]
+    while stack:
+        x = stack.pop()
+        if x in first:
+            continue
+        first[x] = len(first)
+        stack.extend(reversed(edges.get(x, [])))
+
+    def filled_later(i):
+        # the container is written inside the eager reader (its first occurrence) and aliased again further on: the alias
+        # creates it - empty, its filling queued behind the reader's own second phase - before that second phase runs
+        c = old[i][1]
+        return first.get(c, 0) > first.get(i, 0) and len(rev.get(c, [])) >= 2
     m, copy_at, pos = {}, {}, 0
     for i, n in enumerate(old):
-        if n[0] in EAGER_KINDS and old[n[1]][0] in TWO_PHASE_CONTAINERS and in_deep_context(i):
+        if n[0] in EAGER_KINDS and old[n[1]][0] in TWO_PHASE_CONTAINERS and (in_deep_context(i) or filled_later(i)):
             copy_at[i] = pos
             pos += 1
         m[i] = pos
